@@ -23,6 +23,11 @@ def src_text(paths, included):
     return s
 
 
+def angle_src_text(paths, included):
+    """the OKL kernel with its project headers named in the angle-bracket form (absolute paths)"""
+    return src_text(paths, included).replace('#include "', '#include <').replace('.h"\n', '.h>\n')
+
+
 def cpp_src_text(paths, included):
     """the same kernel as plain C++ (built with okl/enabled: false): the C++ compiler expands the includes"""
     s = "".join('#include "%s"\n' % paths[i] for i in included)
@@ -145,6 +150,18 @@ CORPUS = [
     # file removed and restored
     [("src", [0, 1]), H(0, 0, 1), H(1, 1, 2), B, ("rm", 1), B, H(1, 1, 2), B, H(1, 1, 4), B],
 ]
+# headers named with #include <…> (seeded C07-m1: they were expanded but no longer recorded as dependencies).
+# The model's include scanner covers the quoted form only, so these histories are judged by the property's
+# own oracle (kernel outputs vs. the current contents of all included files), not compared with the model.
+def HA(i, slot, val, incs=()):
+    return ("write", i, "#define V%d %d\n" % (slot, val) + "".join('#include <@P%d@>\n' % j for j in incs))
+
+
+ANGLE_CORPUS = [
+    [("asrc", [0]), H(0, 0, 1), B, H(0, 0, 2), B, B, H(0, 0, 1), B],
+    [("src", [1]), HA(1, 1, 1, [2]), H(2, 2, 5), B, H(2, 2, 6), B, HA(1, 1, 1), B],
+    [("asrc", [0, 3]), H(0, 0, 1), H(3, 3, 4), B, H(3, 3, 8), B, ("src", [0, 3]), B, H(0, 0, 9), B],
+]
 # known finding C07-K1: a kernel built with okl/enabled: false gets its #includes from the C++
 # compiler; occa records no dependencies for it (no build.json), so an edited header is not noticed
 KNOWN_REPLAYS = [
@@ -170,6 +187,8 @@ def concretise(ops, hdir):
             lines.append(("rm", paths[op[1]]))
         elif op[0] == "src":
             lines.append(("src", src_text(paths, op[1]), {"compiler_flags": "-O0"}))
+        elif op[0] == "asrc":
+            lines.append(("src", angle_src_text(paths, op[1]), {"compiler_flags": "-O0"}))
         elif op[0] == "cppsrc":
             lines.append(("src", cpp_src_text(paths, op[1]), {"compiler_flags": "-O0", "okl": {"enabled": False}}))
         else:
@@ -219,7 +238,8 @@ def run_history(ck, hb, db, lanes, mode, ops, tag, per_build_timeout):
             exp = [defs.get("V%d" % k, 0) for k in range(NH)] + [0, 0, 0, 7] if ok else None
             impl.append((rc, line, ora, se, exp))
     model = [l for l in run_model_lines(ck, db, model_ops) if l.startswith(("hit", "miss", "parse-error", "chain-error"))]
-    okl = not any(op[0] == "cppsrc" for op in ops)       # the model covers OKL builds only
+    # the model covers OKL builds whose #include lines have the quoted form
+    okl = not any(op[0] in ("cppsrc", "asrc") or (op[0] == "write" and "#include <" in op[2]) for op in ops)
     text = "mode %s\n" % mode + "\n".join(repr(o) for o in ops)
     bi = 0
     for bi, (rc, line, ora, se, exp) in enumerate(impl):
@@ -310,7 +330,7 @@ def main(argv):
     ck.rule = ("histories over 4 headers (one macro slot each, absolute #include lines between them, acyclic) and a kernel "
                "that includes 1-2 of them: content change, include added/removed, revert to earlier contents, copy one "
                "header over another (equal contents), exchange two headers, remove/restore a file, change the kernel's own "
-               "#include lines; 1-3 edits between builds; every build in a fresh process, one shared cache directory per "
+               "#include lines; plus fixed histories whose kernel or headers use the #include <…> form (oracle only); 1-3 edits between builds; every build in a fresh process, one shared cache directory per "
                "history, Serial and OpenMP; evaluations = builds; a build is non-trivial when at least one file changed "
                "since the previous build")
     ck.assumptions = ["files are not edited while a build runs", "builds run to completion (C08 covers crashes)",
@@ -334,6 +354,7 @@ def main(argv):
         nh, nb = (3, 4) if ck.tier == "quick" else (100, 7)
         jobs = [(("serial", "openmp")[i % 2], ops, "%d-c%d" % (ck.seed, i)) for i, ops in enumerate(CORPUS if ck.tier != "quick" else CORPUS[:2] + CORPUS[4:5])]
         jobs += [(ck.rng.choice(["serial", "openmp"]), gen_history(ck.rng, ck.rng.randint(3, nb)), "%d-%d" % (ck.seed, i)) for i in range(nh)]
+        jobs += [(("serial", "openmp")[i % 2], ops, "%d-a%d" % (ck.seed, i)) for i, ops in enumerate(ANGLE_CORPUS if ck.tier != "quick" else ANGLE_CORPUS[:2])]
         jobs += [("serial", ops, "%d-k%d" % (ck.seed, i)) for i, ops in enumerate(KNOWN_REPLAYS)]
     tmo = 300 if ck.tier == "quick" else 600
     tot = {"builds": 0, "hits": 0, "miss": 0, "errors": 0}
